@@ -36,7 +36,8 @@ LEVEL_TEXT = (
     'compiled original and so evaluates identically; built, compiled, evaluated, overwritten and restored models '
     'are Persistable. jsonpickle itself is modelled, not verified: the strength of this check is the '
     'differential run (generated models x 5 history points x 4 file extensions, several constructions from one '
-    'file with the earlier restored model used in between, persisting over an existing path, deep comparison and '
+    'file with the earlier restored model used in between, constructing into used Model objects (roll-back, '
+    'an object that loaded another file), persisting over an existing path, deep comparison and '
     're-evaluation of every cell; the Lean model is also asked whether every real state is Persistable).')
 LEVEL_NOTE = (
     'Trusted: Lean kernel (axioms propext, Classical.choice, Quot.sound); jsonpickle, json, gzip and '
@@ -898,6 +899,57 @@ def use_model(m, overwrites=()):
     evaluate_all(m)
 
 
+DONOR_SPEC = {
+    'id': 'donor', 'default_sheet': 'Donor',
+    'cells': [['Donor!A1', ['int', '11']], ['Donor!A2', ['float', '0x1.8p+1']], ['Donor!A3', ['str', 'dönor']],
+              ['Donor!B1', ['str', '=SUM(A1:A2)']], ['Donor!B2', ['str', '=A1*2']], ['Donor!B3', ['str', '=dn_cell&"!"']],
+              ['Donor!B4', ['str', '=SUM(dn_rng)']], ['Other Sheet!A1', ['str', '=Donor!B1+1']],
+              ['Sheet1!A1', ['int', '777']], ['Sheet1!H30', ['str', '=A1+1']], ['Sheet1!Z77', ['str', 'left over']]],
+    'post_sets': [], 'names': {'dn_cell': 'Donor!$A$3', 'dn_rng': 'Donor!$A$1:$A$2', 'rate0': 'Donor!$A$1'},
+    'overwrites': []}
+_DONOR_FILES = {}
+
+
+def donor_file(tmpdir):
+    """A file holding another model (own sheets, names, ranges, and some addresses generated models use too)."""
+    if tmpdir not in _DONOR_FILES:
+        f = os.path.join(tmpdir, 'donor.json')
+        build_state(DONOR_SPEC, 2).persist_to_json_file(f)
+        _DONOR_FILES[tmpdir] = f
+    return _DONOR_FILES[tmpdir]
+
+
+def construct_into(res, case, target, label, fname, wire0, ev_ref):
+    """`target.construct_from_json_file(fname)` on a Model object that already holds something: the result must
+    be exactly what the file holds."""
+    try:
+        target.construct_from_json_file(fname, build_code=True)
+        wk = obs_wire(target)
+        evk = evaluate_all(target)
+    except Exception as exc:  # noqa: BLE001
+        wk, evk = 'X:' + type(exc).__name__, None
+    res.evaluations += 1
+    res.count('construct-into-used-object')
+    c2 = dict(case, then='construct_from_json_file into ' + label)
+    if unordered(wk) != unordered(wire0):
+        res.violations.append({'what': 'constructing into ' + label + ' does not give the persisted model',
+                               'input': c2, 'expected': short(wire0, 300), 'got': short(wk, 300),
+                               'diff': diff_obs(unordered(wire0), unordered(wk)) if not wk.startswith('X:') else wk})
+    elif evk is not None and first_diff(ev_ref, evk):
+        dev = first_diff(ev_ref, evk)
+        res.violations.append({'what': 'a cell evaluates differently after constructing into ' + label,
+                               'input': c2, 'expected': {dev[0]: dev[1]}, 'got': {dev[0]: dev[2]}})
+
+
+def dirty(m):
+    """Further changes of a model through the API: values on addresses it does not hold yet (one of them an
+    address formulas of generated models read as blank), and on one it holds."""
+    for a, v in (('Sheet1!Z77', 5), ('Sheet1!H20', 40), ('Sheet1!H21', 'x'), ('Extra Sheet!A1', 2.5)):
+        if a not in m.cells:
+            m.set_cell_value(a, v)
+    overwrite_numbers(m, 2)
+
+
 def several_constructions(ctx, res, case, orig, wire0, ev_ref, ext, tmpdir, counter, pending, listed, overwrites):
     """One file, several models (the file is what is restored, not what an earlier reader did with it):
     persist; construct #1 and use it (evaluate, overwrite, evaluate); construct #2 and #3 from the same unchanged
@@ -933,6 +985,18 @@ def several_constructions(ctx, res, case, orig, wire0, ev_ref, ext, tmpdir, coun
             res.violations.append({'what': 'a cell of the model from a ' + label + ' evaluates differently',
                                    'input': c2, 'expected': {dev[0]: dev[1]}, 'got': {dev[0]: dev[2]}})
         results.append(wk)
+    # the receiving object need not be fresh: (i) the model restored last, used and changed further;
+    # (ii) an object that loaded another file before
+    try:
+        dirty(mk)
+        construct_into(res, case, mk, 'a used Model object (restored from this file, evaluated, cells added and '
+                       'overwritten since)', fname, wire0, ev_ref)
+        other = Model()
+        other.construct_from_json_file(donor_file(tmpdir), build_code=True)
+        evaluate_all(other)
+        construct_into(res, case, other, 'a Model object that loaded another file before', fname, wire0, ev_ref)
+    except Exception as exc:  # noqa: BLE001 - the preparation itself failed: not this family's business
+        res.notes.append(f'construct-into preparation failed: {type(exc).__name__}')
     # the used model #1 is itself a model with a history: persist it over the same path, construct #4
     wire1 = obs_wire(first)
     graph1 = graph_wire(first)
@@ -1087,6 +1151,25 @@ def run_spec(ctx, res, spec, tmpdir, counter, exts_for_point, pending, listed):
                             'persistable': d.get('persistable'), 'depth': d.get('depth'), 'kf': d.get('kf', ''),
                             'real_equals_spec': all(unordered(r[1]) == unordered(wire0) for r in reals)})
         pending.append((line, done))
+        # roll back: the persisting object itself, changed further, loads its own file again
+        counter[0] += 1
+        back = os.path.join(tmpdir, f'rollback{counter[0]}{exts_for_point(p)[-1]}')
+        try:
+            orig.persist_to_json_file(back)
+        except Exception:  # noqa: BLE001 - classified with the round trips above (D1201 / violation)
+            back = None
+        if back is not None:
+            try:
+                use_model(orig, spec['overwrites'])
+                dirty(orig)
+            except Exception as exc:  # noqa: BLE001
+                res.notes.append(f'roll-back preparation failed: {type(exc).__name__}')
+            else:
+                construct_into(res, {'spec': spec, 'point': pname, 'ext': exts_for_point(p)[-1]}, orig,
+                               'the persisting Model object itself (evaluated, overwritten and extended since)',
+                               back, wire0, ev_ref)
+            os.unlink(back)
+
 
 
 def run_codec(ctx, res, tmpdir, pending, only=None):
@@ -1283,7 +1366,9 @@ def run(ctx):
         'outdated results, evaluated again) under .json/.gz/.GZ/.gzip, restored with build_code=True, compared '
         'deeply and evaluated cell by cell against the original; per point also: the restored model persisted '
         'again, build_code by hand, and several constructions from one file (the first restored model evaluated '
-        'and overwritten before the second and third construction, then persisted over the same path and restored); '
+        'and overwritten before the second and third construction, then persisted over the same path and restored), '
+        'and constructions INTO used Model objects (a restored model changed further, an object that loaded '
+        'another file before, the persisting object itself rolled back to its file); '
         'every other round trip writes over a longer existing file; plus tricky file names, bundled workbooks '
         '(compiled, evaluated, overwritten), and restores with the import fallback blocked. Non-trivial = a (model, point, '
         'extension) round trip of a model with at least one formula and two kinds of evaluated values that came '
